@@ -5,7 +5,7 @@
    later duplicates win, maps merge, null empties a map), so [k_attrs k] IS
    "the attributes that appear in the payload's attributes object". *)
 From JV Require Import Model.Base Model.GoTime Gen.TypeGo Model.Schema Model.Value
-  Model.Json Model.SoftRes Model.Wrapper Model.Resource Model.Unmarshal Proofs.C14Facts Proofs.SoftFacts Proofs.C13Facts Proofs.C13Rels Proofs.C13Values Proofs.C05Mixed.
+  Model.Json Model.SoftRes Model.Wrapper Model.Resource Model.Unmarshal Proofs.C14Facts Proofs.SoftFacts Proofs.C13Facts Proofs.C13Rels Proofs.C13Values Proofs.C05Mixed Proofs.WrapperFacts Proofs.C01Wrapped Proofs.C13Mixed.
 
 (* accepted by partial unmarshaling iff accepted by full unmarshaling (and a
    panic on one side is a panic on the other); proved for schemas of soft
@@ -72,6 +72,33 @@ Theorem C13_values_agree : forall e s j p r,
   forall f, is_field (s_type p) f -> soft_get p f = soft_get r f.
 Proof. exact partial_values_agree. Qed.
 Print Assumptions C13_values_agree.
+
+(* the same for struct-backed types: full unmarshaling stores the values in a
+   struct, partial unmarshaling in a soft resource; what the struct reads for
+   the id, for every attribute of the partial type ([read_slot]: a nil pointer
+   reads as nil) and for every relationship of the partial type is the partial
+   resource's value *)
+Theorem C13_values_agree_wrapped : forall e s j p r d,
+  sch_ok s ->
+  (forall k, dec_resske j = Some k ->
+     lookup (tname (get_type (sch_schema s) (k_type k))) (sch_wrapped s) = Some d /\
+     wf_res_type (get_type (sch_schema s) (k_type k))) ->
+  unmarshal_partial e s j = Ok p -> unmarshal_resource e s j = Ok r ->
+  exists w', r = RWrap w' /\
+    wrapper_get w' "id" = Ok (soft_get p "id") /\
+    (forall n, In n (map fst (tattrs (s_type p))) -> wrapper_get w' n = Ok (read_slot (soft_get p n))) /\
+    (forall n, In n (map fst (trels (s_type p))) -> wrapper_get w' n = Ok (soft_get p n)).
+Proof. exact partial_values_agree_wrapped. Qed.
+Print Assumptions C13_values_agree_wrapped.
+
+Example c13_wrapped_example :
+  let e := tbl_env [] [] [] [] in
+  let j := JObj [("type", jstr "things"); ("id", jstr "7");
+                 ("attributes", JObj [("n", JNull); ("a", jstr "x")]);
+                 ("relationships", JObj [("many", JObj [("data", JArr [JObj [("id", jstr "u1"); ("type", jstr "u")]])])])] in
+  sch_ok exw_sch /\ is_ok (unmarshal_partial e exw_sch j) = true /\ is_ok (unmarshal_resource e exw_sch j) = true /\
+  lookup "things" (sch_wrapped exw_sch) = Some exw_desc.
+Proof. cbn zeta. split; [exact (proj1 exw_sch_ok)|]. vm_compute. repeat split. Qed.
 
 Example c13_example :
   let e := tbl_env [] [] [] [] in
